@@ -39,7 +39,11 @@ def pyv(v):
 
 
 def kw_at(params, pt):
-    out = {}
+    out = {}; pt = dict(pt)
+    for v in params.values():          # parameters the counterexample leaves free (not in the restriction nor in the path condition): any admissible-looking value, the script is run natively anyway
+        for q in (v if isinstance(v, (list, tuple)) else [v]):
+            if isinstance(q, sp.Basic):
+                for s_ in q.free_symbols: pt.setdefault(s_, sp.Integer(1))
     for k, v in params.items():
         if isinstance(v, (list, tuple)): out[k] = type(v)(pyv(alg.numeric(q, pt, 20)) if isinstance(q, sp.Basic) and q.free_symbols else pyv(q) for q in v)
         elif isinstance(v, sp.Basic) and v.free_symbols: out[k] = pyv(sp.nsimplify(alg.numeric(v, pt, 20))) if v.is_integer else pyv(alg.numeric(v, pt, 20))
